@@ -22,6 +22,8 @@ func genCli() {
 	}
 	raw, wrapped := 0, 0
 	wrapper := ""
+	wrapperOf := map[string]string{} // field → the function its value goes through
+	wrappers := map[string]bool{}
 	isField := func(e ast.Expr) bool {
 		se, ok := e.(*ast.SelectorExpr)
 		return ok && (se.Sel.Name == "Description" || se.Sel.Name == "Name" || se.Sel.Name == "Value")
@@ -42,6 +44,8 @@ func genCli() {
 				wrapped++
 				if id, ok := wc.Fun.(*ast.Ident); ok {
 					wrapper = id.Name
+					wrappers[id.Name] = true
+					wrapperOf[wc.Args[0].(*ast.SelectorExpr).Sel.Name] = id.Name
 				}
 			}
 		}
@@ -70,8 +74,9 @@ func genCli() {
 				} else if id, ok := a.(*ast.Ident); ok && id.Name == "filePath" {
 					rawPath++
 				} else if wc, ok := a.(*ast.CallExpr); ok && len(wc.Args) == 1 {
-					if fn, ok := wc.Fun.(*ast.Ident); ok && fn.Name == wrapper {
+					if fn, ok := wc.Fun.(*ast.Ident); ok && wrappers[fn.Name] {
 						wrappedPath++
+						wrapperOf["Path"] = fn.Name
 					}
 				}
 			}
@@ -122,9 +127,29 @@ func genCli() {
 			return true
 		})
 	}
+	// text that starts an output line (Description, attribute Name, the path) goes through sanitizeLead, which escapes
+	// leading white space (unicode.IsSpace) and hands the rest to the wrapper of the values
+	escapesLead := false
+	if sl := findFunc(f, "sanitizeLead"); sl != nil && wrapperOf["Description"] == "sanitizeLead" && wrapperOf["Name"] == "sanitizeLead" &&
+		wrapperOf["Path"] == "sanitizeLead" && wrapperOf["Value"] != "" {
+		usesIsSpace, callsValueWrapper := false, false
+		ast.Inspect(sl.Body, func(n ast.Node) bool {
+			if se, ok := n.(*ast.SelectorExpr); ok && se.Sel.Name == "IsSpace" {
+				usesIsSpace = true
+			}
+			if c, ok := n.(*ast.CallExpr); ok {
+				if id, ok := c.Fun.(*ast.Ident); ok && id.Name == wrapperOf["Value"] {
+					callsValueWrapper = true
+				}
+			}
+			return true
+		})
+		escapesLead = usesIsSpace && callsValueWrapper
+	}
+	facts["cli.escapesLead"] = escapesLead
 	facts["cli.processZoneIsUTC"] = localUTC
 	facts["cli.scanCanExit"] = scanExits
-	writeGen("Cli", fmt.Sprintf("def cliSanitizes : Bool := %v\ndef cliSanitizesPath : Bool := %v\ndef cliMaxDepth : Nat := %d\ndef cliScanCanExit : Bool := %v\n", san, pathSan, md, scanExits))
+	writeGen("Cli", fmt.Sprintf("def cliSanitizes : Bool := %v\ndef cliSanitizesPath : Bool := %v\ndef cliMaxDepth : Nat := %d\ndef cliScanCanExit : Bool := %v\ndef cliEscapesLead : Bool := %v\n", san, pathSan, md, scanExits, escapesLead))
 	facts["cli.pathSanitized"] = pathSan
 	facts["cli.printInfo.sanitizes"] = san
 	facts["cli.printInfo.wrapper"] = wrapper
